@@ -95,7 +95,7 @@ static void sr_explicit(struct scope_reference* self, struct async_scope* scope)
 }
 static void sr_copy(struct scope_reference* dst, const struct scope_reference* src) {   /* scope_reference(const scope_reference& other): delegates */
 #define other (*src)
-  sr_explicit(dst, /*@EXPR sr_copy_deleg*/);
+  /*@EXPR sr_copy_deleg*/;
 #undef other
 }
 static void scope_reference_swap_assign(struct scope_reference* self, struct scope_reference* rhs)
@@ -320,7 +320,7 @@ static int vf_fwd(struct async_scope* scope, int kind) { VF_P(scope == &DS.scope
 static int EV_v2_join(struct async_scope* scope) { return vf_fwd(scope, FWD_join); }
 static _Bool EV_v2_joined(struct async_scope* scope) { return vf_fwd(scope, FWD_joined) != 0; }
 static _Bool EV_v2_join_started(struct async_scope* scope) { return vf_fwd(scope, FWD_join_started) != 0; }
-static size_t EV_v2_use_count(struct async_scope* scope) { return (size_t)vf_fwd(scope, FWD_use_count); }
+static size_t EV_v2_use_count(struct async_scope* scope) { vf_fwd(scope, FWD_use_count); return VF_nondet_size_t(); }
 #define DBG_PRE (self == &DS && G.nests == 0 && G.wraps == 0 && G.forwards == 0 && G.fwd_kind == FWD_none)
 int debug_scope_nest(struct debug_scope* self, int sender)
 __CPROVER_requires(DBG_PRE && sender >= 0 && sender < 100)
